@@ -346,8 +346,6 @@ func (p *PIDZero) Shutdown() {
 			p.wg.Wait()
 		}
 
-		close(p.errorChan) // close the error channel, since no runnables can send errors
-
 		totalShutdownTime := time.Since(shutdownStart)
 		p.logger.Debug("Shutdown complete", "duration", totalShutdownTime)
 	})
